@@ -675,6 +675,65 @@ def check_flat(cx, lines):
         cx.rep.sample({"family": "flat", "construct": lines[0]["c"], "n": lines[0]["n"], "source_head": flat_src(lines[0]["c"], lines[0]["n"])[:80]}, cap=20)
 
 
+CP_PRELUDE = '''local function obs(x)
+  local t = math.type(x) or type(x)
+  local z = "nz"
+  if type(x) == "number" and x == 0 then z = (1 / x > 0) and "pos" or "neg" end
+  local v = x
+  if type(x) == "string" then v = tonumber(x) elseif type(x) == "boolean" then v = 1 end
+  return t, z, math.tointeger(v)
+end
+local function run(id, src)
+  local f = load(src, "=c")
+  if not f then emit(id, "rejected") return end
+  local r = table.pack(pcall(f))
+  local out = {}
+  for i = 2, r.n do local t, z, v = obs(r[i]) out[#out + 1] = t out[#out + 1] = z out[#out + 1] = v end
+  emit(id, r[1], table.unpack(out))
+end
+'''
+
+
+def check_constpool(cx, lines):
+    """ConstPool.tla: every literal keeps its denotation whatever other literals the chunk holds; three chunk shapes per case"""
+    shapes = {"flat": lambda ls: "return " + ", ".join(ls),
+              "nested": lambda ls: "return " + ", ".join("(function() return %s end)()" % x for x in ls),
+              "table": lambda ls: "local t = {%s} return %s" % (", ".join(ls), ", ".join("t[%d]" % (i + 1) for i in range(len(ls))))}
+    items = [(l, sh) for l in lines for sh in shapes]
+    cases = []
+    per = 200
+    for b in range(0, len(items), per):
+        body = [CP_PRELUDE]
+        for j, (l, sh) in enumerate(items[b:b + per]):
+            body.append("run(%d, %s)" % (b + j, lua_str(shapes[sh](l["lits"]))))
+        cases.append({"id": len(cases), "src": "\n".join(body), "timeout": 60000, "maxev": per + 10})
+    outs = run_lua_cases(cx.drv, cases)
+    cx.rep.cov["evaluations"] += len(items)
+    got = {}
+    for i in range(len(cases)):
+        o = outs[i]
+        if bad_outcome(o) or not o.get("ok"):
+            cx.viol({"fam": "constpool", "why": bad_outcome(o) or "batch-failed"}, {"cmd": "lua-run", "src_head": cases[i]["src"][-600:], "observed": {k: v for k, v in o.items() if k != "events"}})
+            continue
+        for e in o.get("events", []):
+            got[int(e[0]["i"])] = e[1:]
+    for k, (l, sh) in enumerate(items):
+        cx.count("constpool", sh)
+        g = got.get(k)
+        if g is None:
+            continue
+        exp = [True]
+        for t, z, v in l["exp"]:
+            exp += [{"s": t}, {"s": z}, {"i": str(v)}]
+        if g != exp:
+            why = "valid-rejected" if g and sval0(g[0]) == "rejected" else "wrong-denotation"
+            pos = next((j for j in range(min(len(g), len(exp))) if g[j] != exp[j]), 0)
+            cx.viol({"fam": "constpool", "why": why, "shape": sh, "literal": l["lits"][max(0, (pos - 1) // 3)] if why != "valid-rejected" else ""},
+                    {"cmd": "lua-run", "source": shapes[sh](l["lits"]), "expected": exp, "observed": g})
+    if lines:
+        cx.rep.sample({"family": "constpool", "source": shapes["flat"](lines[0]["lits"])}, cap=20)
+
+
 def sval0(x):
     return x.get("s") if isinstance(x, dict) else x
 
@@ -766,6 +825,14 @@ def run(prop, tier):
         cov["traces_validated_against_impl"] += len(flines)
         cov["configs"].append({"cfg": "SyntaxFlat", "cases": len(flines), "evaluations": cov["evaluations"] - n0})
         log("[%s] SyntaxFlat: %d cases" % (prop, len(flines)))
+        clines = []
+        cres = run_tlc("ConstPool", "ConstPoolQ.cfg" if tier == "quick" else "ConstPoolT.cfg", timeout=600, on_line=clines.append, workers=1)
+        if cres.violation:
+            raise Infra("ConstPool: " + cres.violation)
+        check_constpool(cx, clines)
+        cov["traces_validated_against_impl"] += 3 * len(clines)
+        cov["configs"].append({"cfg": "ConstPool", "cases": 3 * len(clines)})
+        log("[%s] ConstPool: %d literal sequences x 3 chunk shapes" % (prop, len(clines)))
     cov["exhaustive"] = True
     rep.assumptions += [
         "decimal and hexadecimal float numerals denote the double nearest to their exact value (compared bit for bit only inside the normal finite range)",
